@@ -74,6 +74,13 @@ def _judge(case, got, drv, path, other=None):
             if badm:
                 out.append(dict(kind='model', key=f'dilate-model:{path}',
                                 detail=dict(pixels=badm[:8], got=g, model=m, path=path)))
+            elif path == 'fast' and 'loops' in drv:
+                # loop-by-loop transliteration of the fast dilation branch (C01_fast_dilate_loops_eq_pointwise)
+                loops = core.ints(drv['loops'])
+                badl = [i for i, (a, b) in enumerate(zip(g, loops)) if a != b]
+                if badl:
+                    out.append(dict(kind='model', key='dilate-loops-model:fast',
+                                    detail=dict(pixels=badl[:8], got=g, model=loops, path=path)))
     if other is not None:
         o = [int(x) for x in other.ravel(order='C').tolist()]
         if o != g:
